@@ -11,6 +11,9 @@ package main
 //       0 refused ("stream is stopped") / - not applicable; an X op adds :<async>/<sync> = one digit per sink registered
 //       before that Stop (registration order): how often the Stop itself made it run (the MATCH_RECOGNIZE flush);
 //       then gr:<base>:<final>. kind cepopen = PATTERN (A+): v >= 0 extends the open match, v < 0 closes and reports it.
+//       kinds cepdef / cepmeas = the same pattern with the user function c18boom inside DEFINE / MEASURES, i.e. a row
+//       that panics INSIDE the MATCH_RECOGNIZE engine (v = -7): later rows must still be matched, Stop must return and
+//       deliver the flushed match. An X op whose Stop let a panic escape into its caller has r = 2.
 //   C18 R <kind> <strategy> <seed> # <event trace>
 //       concurrent Emit/EmitSync/AddSink/GetStats/TriggerWindow/Stop from a seeded plan; events sb:j sr:j:ms kb:f ke yb:j ye:j:r
 //       to gr:base:final (see Spec/LifecycleSpec.v).
@@ -19,6 +22,7 @@ package main
 //       take submitSinkTask's overflow branch; Stop is called while these invocations are in progress and they are released
 //       one by one in the order in which they began. Same events and monitor as R.
 //   C18 L # <event trace>   two overlapping Stop calls (documents F18c).
+//   C18 I ...               Execute immediately followed by Stop (no yield in between), see c18c.go.
 //   C18 W ... / C18 B ...   calls in flight while sinks are registered and Stop is called / user code blocked or
 //       re-entering on a pipeline goroutine while Stop or an expansion arrives: see c18b.go.
 
@@ -105,19 +109,31 @@ func (t *c18Trace) sinkEnd() {
 	t.add("ke")
 	atomic.AddInt64(&t.ends, 1)
 }
-func (t *c18Trace) stop(s *streamsql.Streamsql, j int) {
+func (t *c18Trace) stop(s *streamsql.Streamsql, j int) (panicked bool) {
 	g := gid()
 	t.mu.Lock()
 	t.inStop[g] = true
 	t.ev = append(t.ev, fmt.Sprintf("sb:%d", j))
 	t.mu.Unlock()
 	t0 := time.Now()
-	s.Stop()
+	panicked = false
+	func() {
+		defer func() {
+			if e := recover(); e != nil {
+				panicked = true // a panic escaped Stop into its caller
+			}
+		}()
+		s.Stop()
+	}()
 	ms := time.Since(t0).Milliseconds()
 	t.mu.Lock()
 	delete(t.inStop, g)
+	if panicked {
+		t.ev = append(t.ev, fmt.Sprintf("sp:%d", j))
+	}
 	t.ev = append(t.ev, fmt.Sprintf("sr:%d:%d", j, ms))
 	t.mu.Unlock()
+	return panicked
 }
 func (t *c18Trace) emitSync(s *streamsql.Streamsql, j int, row map[string]any) {
 	t.add(fmt.Sprintf("yb:%d", j))
@@ -202,6 +218,13 @@ var c18Kinds = map[string]string{
 	"cep":       "SELECT * FROM stream MATCH_RECOGNIZE (ORDER BY ts MEASURES A.id AS aid ONE ROW PER MATCH PATTERN (A B+) DEFINE A AS v >= 0, B AS v >= 0)",
 	// an unclosed greedy A+: rows with v >= 0 extend the open match, a row with v < 0 closes and reports it, Stop flushes it
 	"cepopen": "SELECT * FROM stream MATCH_RECOGNIZE (ORDER BY ts MEASURES COUNT(*) AS n ONE ROW PER MATCH PATTERN (A+) DEFINE A AS v >= 0)",
+	// the same open match, but user code runs INSIDE the engine (under its mutex): cepdef = DEFINE calls c18boom, so a row
+	// with v = -7 panics while the engine decides whether it extends the match (the row is lost, the match stays as it
+	// was); cepmeas = MEASURES calls c18boom on the last row of the match and rows with v = -7 belong to A, so closing
+	// (or flushing) a match whose last row is -7 panics while the match is projected (the engine keeps the match open).
+	// WITHIN starts the engine's sweeper goroutine, which Stop has to join as well.
+	"cepdef":  "SELECT * FROM stream MATCH_RECOGNIZE (ORDER BY ts MEASURES COUNT(*) AS n ONE ROW PER MATCH PATTERN (A+) WITHIN '1h' DEFINE A AS c18boom(v) >= 0)",
+	"cepmeas": "SELECT * FROM stream MATCH_RECOGNIZE (ORDER BY ts MEASURES COUNT(*) AS n, c18boom(LAST(A.v)) AS m ONE ROW PER MATCH PATTERN (A+) DEFINE A AS v >= 0 OR v < -5)",
 	"tumbling":  "SELECT count(*) AS c, max(c18boom(v)) AS m FROM stream WHERE v >= 0 OR v < -5 GROUP BY TumblingWindow('20ms')",
 	"sliding":   "SELECT count(*) AS c, max(c18boom(v)) AS m FROM stream WHERE v >= 0 OR v < -5 GROUP BY SlidingWindow('40ms','20ms')",
 	"session":   "SELECT count(*) AS c, max(c18boom(v)) AS m FROM stream WHERE v >= 0 OR v < -5 GROUP BY SessionWindow('20ms')",
@@ -338,8 +361,10 @@ func runC18Script(sc c18Script, countGoroutines bool) (string, error) {
 			case 'T':
 				s.TriggerWindow()
 			case 'X':
-				t.stop(s, i)
 				r = "1"
+				if t.stop(s, i) {
+					r = "2" // a panic escaped Stop
+				}
 			}
 		})
 		if !ok {
@@ -383,7 +408,23 @@ func genC18Script(rng *RNG, kind, strat string) c18Script {
 			sc.sinks = append(sc.sinks, string("as"[rng.Intn(2)])+string(b))
 		}
 	}
+	boom := kind == "cepdef" || kind == "cepmeas"
+	if boom {
+		sc.sinks = nil
+		for i, n := 0, 1+rng.Intn(3); i < n; i++ {
+			sc.sinks = append(sc.sinks, string("as"[rng.Intn(2)])+string("ppppxg"[rng.Intn(6)]))
+		}
+	}
 	val := func() string {
+		if boom { // v >= 0 extends the open match, -7 panics inside the engine, -1 closes the match
+			switch k := rng.Intn(8); {
+			case k < 2:
+				return "-7"
+			case k < 4:
+				return "-1"
+			}
+			return strconv.Itoa(rng.Intn(50))
+		}
 		switch rng.Intn(8) {
 		case 0:
 			return "-1"
@@ -417,6 +458,22 @@ func genC18Script(rng *RNG, kind, strat string) c18Script {
 	}
 	for i, n := 0, 2+rng.Intn(6); i < n; i++ {
 		sc.ops = append(sc.ops, op(false))
+	}
+	if boom {
+		// the family's shape is always present: a row that panics inside the engine, FOLLOWED by rows that extend the
+		// match and (two thirds) by the row that closes and reports it; then Stop
+		tail := []string{"e-7", "e" + strconv.Itoa(rng.Intn(50))}
+		if kind == "cepmeas" {
+			tail = []string{"e" + strconv.Itoa(rng.Intn(50)), "e-7", "e-1", "e" + strconv.Itoa(rng.Intn(50))}
+		}
+		if rng.Intn(3) > 0 {
+			tail = append(tail, "e-1")
+		}
+		if rng.Intn(3) == 0 {
+			tail = append(tail, "e"+val()) // whatever comes last decides what Stop has to flush
+		}
+		at := rng.Intn(len(sc.ops) + 1)
+		sc.ops = append(sc.ops[:at:at], append(tail, sc.ops[at:]...)...)
 	}
 	sc.ops = append(sc.ops, "X")
 	for i, n := 0, 1+rng.Intn(4); i < n; i++ {
@@ -702,14 +759,22 @@ func runC18(tier string, seed uint64, o *Out) error {
 	rng := NewRNG(NewRNG(seed).Next())
 	stuck := 0
 	strategies := []string{"drop", "block", "expand"}
-	scriptKinds := []string{"direct", "analytic", "counting1", "global1", "cepopen"}
-	randKinds := []string{"direct", "analytic", "cep", "tumbling", "sliding", "session", "tumblingE", "slidingE", "sessionE", "counting", "global"}
+	scriptKinds := []string{"direct", "analytic", "counting1", "global1", "cepopen", "cepdef", "cepmeas"}
+	randKinds := []string{"direct", "analytic", "cep", "cepdef", "tumbling", "sliding", "session", "tumblingE", "slidingE", "sessionE", "counting", "global"}
 	nScript, nRand := 8, 5
 	if tier == "thorough" {
 		nScript, nRand = 40, 30
 	}
 	if tier == "race" { // internal tier: this binary was built with -race by the thorough tier (see c18RaceRun)
 		nScript, nRand = 2, 6
+	}
+	// (00) family I: Execute immediately followed by Stop, one case at a time and before anything else runs (the cases
+	// set GOMAXPROCS and count goroutines), see c18c.go
+	if n, err := runC18ImmediateFamily(tier, rng, o); err != nil {
+		return err
+	} else if stuck += n; stuck >= c18MaxStuck {
+		o.Count("aborted_after_stuck_cases")
+		return nil
 	}
 	// (0) families B (blocked / re-entrant user code while Stop or an expansion arrives) and W (calls in flight while
 	// sinks are registered and Stop is called), see c18b.go
